@@ -54,7 +54,8 @@ class Executor:
         self.max_depth = 40
         self.extra_modules: Dict[str, ModInfo] = {}
         self.class_fields_hook: Dict[str, Callable] = {}  # external classes: name -> constructor handler
-        self.global_axioms: List[z3.BoolRef] = []
+        self.global_axioms: List[z3.BoolRef] = []   # about symbols that live as long as the executor (ghost functions)
+        self.local_axioms: List[z3.BoolRef] = []    # about symbols of the current target (filter / dict-index functions)
         self._feas_cache: Dict[Any, bool] = {}
         self.index_ctx: List[Any] = []
         self.skolems: List[Any] = []
@@ -62,6 +63,16 @@ class Executor:
         self._keep: List[Any] = []
 
     # ------------------------------------------------------------------------------------------------ utilities
+    def all_axioms(self) -> List[z3.BoolRef]:
+        return self.global_axioms + self.local_axioms
+
+    def new_target(self) -> None:
+        """forget the definitional symbols (and their axioms) of the previous target"""
+        from pyvc.listtheory import FilterFunctions
+        self.local_axioms = []
+        self.filters = FilterFunctions(self)
+        self._dict_last = {}
+
     def fresh(self, name: str, sort=None):
         srt = sort if sort is not None else Sc
         if self.index_ctx:
@@ -119,7 +130,7 @@ class Executor:
             return hit
         s = z3.Solver()
         s.set("timeout", 2000)
-        for a in self.global_axioms:
+        for a in self.all_axioms():
             s.add(a)
         s.add(*conds)
         r = s.check()
@@ -737,7 +748,7 @@ class Executor:
         def implied(c1, c2) -> bool:
             s = z3.Solver()
             s.set("timeout", 3000)
-            for ax in self.global_axioms:
+            for ax in self.all_axioms():
                 s.add(ax)
             s.add(*st.pc)
             s.add(c1 != c2)
@@ -830,7 +841,7 @@ class Executor:
         cond = z3.And(t >= 0, t < seg.n, z3.substitute(g, (seg.ivar, t)) if g is not None else z3.BoolVal(True))
         sol = z3.Solver()
         sol.set("timeout", 2000)
-        for ax in self.global_axioms:
+        for ax in self.all_axioms():
             sol.add(ax)
         sol.add(*st.pc)
         sol.add(z3.Not(cond))
@@ -1015,12 +1026,12 @@ class Executor:
         out.append(self.raise_(cur, "KeyError", k if isinstance(k, SV) else sv_str("key")))
         return out
 
-    def dict_tail_lookup(self, st: State, c: Ref, o: DictObj, k) -> List[Res]:
-        """lookup in a dict whose entries are a symbolic sequence of (possibly guarded) (key, value) pairs: the hit
-        index is a Skolem constant"""
-        if o.entries or len(o.tail.segs) != 1 or not isinstance(o.tail.segs[0], L.MapSeg):
+    def _tail_alternatives(self, tail: L.LT):
+        """(segment, [(condition, (key, value) pair)]) of a dict tail: at index i the entry `pair` exists under
+        `condition`; the conditions are pairwise exclusive (at most one insertion per generic iteration)"""
+        if len(tail.segs) != 1 or not isinstance(tail.segs[0], L.MapSeg):
             raise Unsupported("lookup in a dict of this shape")
-        seg = o.tail.segs[0]
+        seg = tail.segs[0]
         alts: List[Tuple[Any, Any]] = []
 
         def collect(lt: L.LT, cond) -> None:
@@ -1032,47 +1043,116 @@ class Executor:
                 else:
                     raise Unsupported("lookup in a dict of this shape")
         collect(seg.body, z3.BoolVal(True))
+        for a in range(len(alts)):
+            for b in range(a + 1, len(alts)):
+                chk = z3.Solver()
+                chk.set("timeout", 2000)
+                chk.add(alts[a][0], alts[b][0])
+                if chk.check() != z3.unsat:
+                    raise Unsupported("a dict that receives several insertions in one generic iteration")
+        for _, pair in alts:
+            if not (isinstance(pair, Tup) and isinstance(pair.items[0], SV)):
+                raise Unsupported("lookup in a dict whose keys are not scalars")
+        return seg, alts
+
+    def dict_last_index(self, st: State, tail: L.LT):
+        """The function last: index -> index of the LAST entry of the tail whose key equals the key of entry j (Python:
+        a later insertion with an equal key replaces the value).  It is introduced by its defining axioms - a
+        conservative extension, such a function exists for every finite sequence of entries - so a lookup does not
+        need the assumption that the inserted keys are distinct:
+            entry at j                                  ->  entry at last(j), j <= last(j) < n, key(last(j)) = key(j)
+            entries at j and m with equal keys          ->  last(j) >= m"""
+        cache = self.__dict__.setdefault("_dict_last", {})
+        hit = cache.get(id(tail))
+        if hit is not None:
+            return hit
+        seg, alts = self._tail_alternatives(tail)
+        from pyvc.listtheory import _mentions
+        terms = [seg.n] + [c for c, _ in alts] + [p.items[0].t for _, p in alts]
+        # enclosing generic indices the dict depends on (the tail's own bound index is not one of them, even when an
+        # enclosing iteration runs over the same list and therefore uses the same name)
+        ctx = [v for v in self.index_ctx if not v.eq(seg.ivar) and any(_mentions(t, v) for t in terms)]
+        f = z3.Function(f"last!{next(self._n)}", *([z3.IntSort()] * len(ctx)), z3.IntSort(), z3.IntSort())
+
+        def last(t):
+            return f(*ctx, t)
+        j = z3.Const(f"j!{next(self._n)}", z3.IntSort())
+        m = z3.Const(f"m!{next(self._n)}", z3.IntSort())
+        at = lambda term, t: z3.substitute(term, (seg.ivar, t))  # noqa: E731
+
+        def entry(t):   # some alternative holds at index t
+            return z3.Or(*[at(c, t) for c, _ in alts])
+
+        def key(t):     # the key of the entry at t (alternatives are exclusive)
+            k = at(alts[-1][1].items[0].t, t)
+            for c, p in reversed(alts[:-1]):
+                k = z3.If(at(c, t), at(p.items[0].t, t), k)
+            return k
+        inr = lambda t: z3.And(t >= 0, t < seg.n)  # noqa: E731
+        ax = [z3.ForAll([j], z3.Implies(z3.And(inr(j), entry(j)),
+                                        z3.And(last(j) >= j, last(j) < seg.n, entry(last(j)), key(last(j)) == key(j))),
+                        patterns=[last(j)]),
+              z3.ForAll([j, m], z3.Implies(z3.And(inr(j), inr(m), entry(j), entry(m), key(j) == key(m)), last(j) >= m),
+                        patterns=[z3.MultiPattern(last(j), key(m))] if not z3.is_quantifier(key(m)) else [])]
+        for a_ in ax:
+            self.local_axioms.append(z3.ForAll(ctx, a_) if ctx else a_)
+        cache[id(tail)] = (tail, last, seg, alts, entry, key)
+        return cache[id(tail)]
+
+    def dict_tail_lookup(self, st: State, c: Ref, o: DictObj, k) -> List[Res]:
+        """lookup in a dict whose entries are a symbolic sequence of (possibly guarded) (key, value) pairs: the entry
+        found is the LAST one with that key"""
+        if o.entries:
+            raise Unsupported("lookup in a dict of this shape")
+        if not isinstance(k, SV):
+            raise Unsupported("lookup with a key that is not a scalar")
+        _, last, seg, alts, entry, key = self.dict_last_index(st, o.tail)
         out: List[Res] = []
-        # the key looked up is literally the key of the entry at index t: with pairwise distinct keys (a dict parameter
-        # has them by nature; for a dict filled by a loop it is the recorded assumption) the hit IS that entry
-        ts = [_match(z3.simplify(pair.items[0].t), z3.simplify(k.t), seg.ivar)
-              if isinstance(pair, Tup) and isinstance(pair.items[0], SV) and isinstance(k, SV) else None
-              for _, pair in alts]
-        if alts and all(t is not None and t.eq(ts[0]) for t in ts):
-            t = ts[0]
-            self.note_assumption("keys of a dict are pairwise distinct (a key inserted twice by a loop over a symbolic "
-                                 "sequence overwrites: the values inserted are functions of the key)")
-            cur = st
-            for cond, pair in alts:
+
+        def found(s: State, some_index) -> None:
+            # a dict parameter has pairwise distinct keys: the entry with this key is the only, hence the last one
+            idx = some_index if o.distinct_keys else last(some_index)
+            cur = s
+            for n_alt, (cond, pair) in enumerate(alts):
+                here = z3.substitute(cond, (seg.ivar, idx))
+                if n_alt == len(alts) - 1:
+                    cur.assume(here)  # an entry exists at last(..): the alternative that is left
+                    out.append((cur, self.subst(cur, pair, seg.ivar, idx).items[1]))
+                    return
                 nxt = None
-                for s, hit in self.branch(cur, z3.And(t >= 0, t < seg.n, z3.substitute(cond, (seg.ivar, t)))):
-                    if hit:
-                        out.append((s, self.subst(s, pair, seg.ivar, t).items[1]))
+                for s2, t in self.branch(cur, here):
+                    if t:
+                        out.append((s2, self.subst(s2, pair, seg.ivar, idx).items[1]))
                     else:
-                        nxt = s
+                        nxt = s2
                 if nxt is None:
-                    return out
+                    return
                 cur = nxt
-            out.append(self.raise_(cur, "KeyError", k))
-            return out
-        for s, hit in self.branch(st, self.contains(st, k, c)):
+        # (a) the key looked up is literally the key of the entry at index t
+        ts = [_match(z3.simplify(pair.items[0].t), z3.simplify(k.t), seg.ivar) for _, pair in alts]
+        rest = st
+        if all(t is not None and t.eq(ts[0]) for t in ts):
+            t = ts[0]
+            rest = None
+            for s, there in self.branch(st, z3.And(t >= 0, t < seg.n, entry(t))):
+                if there:
+                    found(s, t)
+                else:
+                    rest = s
+            if rest is None:
+                return out
+        # (b) any key: some entry has it (witness index)
+        for s, hit in self.branch(rest, self.contains(rest, k, c)):
             if not hit:
-                out.append(self.raise_(s, "KeyError", k if isinstance(k, SV) else sv_str("key")))
+                out.append(self.raise_(s, "KeyError", k))
                 continue
             if getattr(self, "in_clause", 0) > 0:
-                # inside a contract clause: a witness, existentially quantified by clause_formula
-                j = self.fresh_const("hit", z3.IntSort())
-                self.skolems.append(j)
+                w = self.fresh_const("hit", z3.IntSort())   # inside a contract clause: bound by clause_formula
+                self.skolems.append(w)
             else:
-                # executing code: the index hit depends on the enclosing generic indices
-                j = self.fresh("hit", z3.IntSort())
-            s.assume(z3.And(j >= 0, j < seg.n))
-            for cond, pair in alts:
-                s2 = s.fork() if len(alts) > 1 else s
-                pj = self.subst(s2, pair, seg.ivar, j)
-                s2.assume(z3.And(z3.substitute(cond, (seg.ivar, j)), self.eq(s2, pj.items[0], k)))
-                if len(alts) == 1 or self.feasible(s2.pc):
-                    out.append((s2, pj.items[1]))
+                w = self.fresh("hit", z3.IntSort())         # executing code: depends on the enclosing generic indices
+            s.assume(z3.And(w >= 0, w < seg.n, entry(w), key(w) == k.t))
+            found(s, w)
         return out
 
     def concrete_int(self, k) -> int:
